@@ -357,3 +357,29 @@ func escapeSymbolsForRegex(text string) string {
 
 	return text
 }
+
+/*
+Converts all capturing groups of a regular expression into non-capturing ones. The nested combination
+patterns consist of thousands of groups whose submatches are never used; matching those patterns with
+capturing groups dominates parsing time (tens of seconds for statements with several nesting levels).
+Escaped parentheses (i.e., literal ones) and already qualified groups (e.g., '(?:') are left untouched.
+*/
+func nonCapturingGroups(pattern string) string {
+	b := strings.Builder{}
+	for i := 0; i < len(pattern); i++ {
+		c := pattern[i]
+		if c == '\\' && i+1 < len(pattern) {
+			// Copy escaped symbol verbatim
+			b.WriteByte(c)
+			b.WriteByte(pattern[i+1])
+			i++
+			continue
+		}
+		if c == '(' && !(i+1 < len(pattern) && pattern[i+1] == '?') {
+			b.WriteString("(?:")
+			continue
+		}
+		b.WriteByte(c)
+	}
+	return b.String()
+}
